@@ -772,11 +772,26 @@ func (lb *LoadBalancer) proxyRequest(backend *Backend, w http.ResponseWriter, r 
 		}
 	}()
 
-	// Forward the request to the selected backend
+	// Once the server's write deadline has passed nothing more can be sent to
+	// this client, so stop waiting for the backend at that point: a backend
+	// that goes silent in the middle of a body would otherwise hold the
+	// exchange, its goroutines and its backend connection for as long as the
+	// client stays. Hijacked connections (WebSocket tunnels) have no write
+	// deadline and are left alone.
+	ctx, cancelProxy := context.WithCancel(r.Context())
+	defer cancelProxy()
+	writeDeadline := time.AfterFunc(lb.clientWriteTimeout(), func() {
+		if !rw.hijacked.Load() {
+			cancelProxy()
+		}
+	})
+	defer writeDeadline.Stop()
 	if len(r.Trailer) > 0 {
-		r = r.WithContext(context.WithValue(r.Context(), inboundTrailerKey{}, r.Trailer))
+		ctx = context.WithValue(ctx, inboundTrailerKey{}, r.Trailer)
 	}
-	backend.ReverseProxy.ServeHTTP(rw, r)
+
+	// Forward the request to the selected backend
+	backend.ReverseProxy.ServeHTTP(rw, r.WithContext(ctx))
 
 	// Record metrics and handle passive health checks
 	lb.recordRequestMetrics(backend, rw.statusCode, startTime, r)
@@ -842,6 +857,7 @@ func (lb *LoadBalancer) handlePassiveHealthCheck(backend *Backend, statusCode in
 type responseWriter struct {
 	http.ResponseWriter
 	statusCode int
+	hijacked   atomic.Bool // the connection was taken over (WebSocket): request-scoped deadlines no longer apply
 }
 
 // WriteHeader captures the status code
@@ -869,7 +885,17 @@ func (rw *responseWriter) Hijack() (net.Conn, *bufio.ReadWriter, error) {
 	if !ok {
 		return nil, nil, fmt.Errorf("response writer does not implement http.Hijacker")
 	}
+	rw.hijacked.Store(true)
 	return h.Hijack()
+}
+
+// clientWriteTimeout is the write timeout the HTTP server applies to client
+// connections (server.timeouts.write, 15s when unset).
+func (lb *LoadBalancer) clientWriteTimeout() time.Duration {
+	if lb.config != nil && lb.config.Server.Timeouts.Write > 0 {
+		return time.Duration(lb.config.Server.Timeouts.Write) * time.Second
+	}
+	return 15 * time.Second
 }
 
 // Stop gracefully shuts down the load balancer and waits for all health check goroutines to finish
